@@ -98,18 +98,28 @@ func H_C10_file_save() {
 		}
 		expected = specGofmt(raw)
 	}
-	name := verifTempFile("filename")
+	// what the target holds before Save (only meaningful natively; symbolically the file system is free)
+	pre, exists := "OLD", true
+	switch nondetChoice("preexisting", 4) {
+	case 1:
+		pre = expected + "// stale tail\n"
+	case 2:
+		pre = expected
+	case 3:
+		exists = false
+	}
+	name := verifTempFileWith("filename", pre, exists)
 	err := c10File(noFormat, n).Save(name)
 	if verifEffectCount() < 0 {
 		// native replay: observe the file system instead of the effect trace
-		content, exists := verifReadTempFile(name)
+		content, found := verifReadTempFile(name)
 		if renderFails {
 			verifAssert(err != nil, "a render/format failure is returned")
-			verifAssert(exists && content == "OLD", "target untouched when rendering fails")
+			verifAssert(found == exists && (!found || content == pre), "target untouched when rendering fails")
 			return
 		}
 		verifAssert(err == nil, "success returns nil")
-		verifAssert(exists && content == expected, "saved file holds exactly the rendered output")
+		verifAssert(found && content == expected, "saved file holds exactly the rendered output")
 		return
 	}
 	if renderFails {
@@ -117,12 +127,16 @@ func H_C10_file_save() {
 		verifAssert(verifEffectCount() == 0, "target untouched when rendering fails")
 		return
 	}
-	verifAssert(verifEffectCount() == 1, "exactly one file-system operation")
-	verifAssert(verifEffectName(0) == "os.WriteFile", "the operation is WriteFile")
-	verifAssert(verifEffectArg(0, 0) == name, "written to the requested file")
-	verifAssert(verifEffectArg(0, 1) == expected, "saved file holds exactly the rendered output")
-	verifAssert(verifEffectArg(0, 2) == "420", "mode 0644")
-	verifAssert((err != nil) == verifEffectFailed(0), "the file system's error is returned, and only it")
+	// whatever else consults the file system, the last operation writes the output to the target
+	last := verifEffectCount() - 1
+	verifAssert(last >= 0 && verifEffectName(last) == "os.WriteFile", "on success the saved file holds exactly the rendered output")
+	if last < 0 || verifEffectName(last) != "os.WriteFile" {
+		return
+	}
+	verifAssert(verifEffectArg(last, 0) == name, "written to the requested file")
+	verifAssert(verifEffectArg(last, 1) == expected, "saved file holds exactly the rendered output")
+	verifAssert(verifEffectArg(last, 2) == "420", "mode 0644")
+	verifAssert((err != nil) == verifEffectFailed(last), "the file system's error is returned, and only it")
 }
 
 func c10Fragment(which int, n int, w *faultWriter, rawBuf *bytes.Buffer) (err error, rawErr error) {
